@@ -313,10 +313,11 @@ tx_outs:\n{tx_outs}
         signed for index input_index"""
 
         # consensus bugs related to invalid input indices
+        # (the base type is the low five bits of the hash type, as in consensus)
         DEFAULT = 1 << 248
         if input_index >= len(self.tx_ins):
             return DEFAULT
-        elif hash_type & 3 == SIGHASH_SINGLE and input_index >= len(self.tx_outs):
+        elif hash_type & 0x1F == SIGHASH_SINGLE and input_index >= len(self.tx_outs):
             return DEFAULT
         # create the serialization per spec
         # start with version: int_to_little_endian in 4 bytes
@@ -341,7 +342,7 @@ tx_outs:\n{tx_outs}
             # Otherwise, the ScriptSig is empty
             else:
                 script_sig = None
-                if hash_type & 3 in (SIGHASH_NONE, SIGHASH_SINGLE):
+                if hash_type & 0x1F in (SIGHASH_NONE, SIGHASH_SINGLE):
                     sequence = Sequence(0)
             # create a TxIn object with the prev_tx, prev_index and sequence
             # the same as the current tx_in and the script_sig from above
@@ -359,17 +360,17 @@ tx_outs:\n{tx_outs}
                 s += new_tx_in.serialize()
         # add how many outputs there are using encode_varint
         # NONE commits to no output, SINGLE to the outputs up to input_index
-        if hash_type & 3 == SIGHASH_NONE:
+        if hash_type & 0x1F == SIGHASH_NONE:
             s += encode_varint(0)
-        elif hash_type & 3 == SIGHASH_SINGLE:
+        elif hash_type & 0x1F == SIGHASH_SINGLE:
             s += encode_varint(input_index + 1)
         else:
             s += encode_varint(len(self.tx_outs))
         # add the serialization of each output
         for i, tx_out in enumerate(self.tx_outs):
-            if hash_type & 3 == SIGHASH_NONE:
+            if hash_type & 0x1F == SIGHASH_NONE:
                 continue
-            elif hash_type & 3 == SIGHASH_SINGLE:
+            elif hash_type & 0x1F == SIGHASH_SINGLE:
                 if i == input_index:
                     s += tx_out.serialize()
                     break
